@@ -12,7 +12,7 @@ use std::rc::Rc;
 pub const DEF: PropDef = PropDef {
     id: "C16",
     level: "exploration",
-    rule: "programs built directly as AST values (public fields): the whole canonical corpus of the reference grammar (every statement kind with every slot filled from 14 expression shapes, operator chains, lists, calls, subscripts), every block-nesting shape up to 5 (thorough 7) nodes, plus trees the parser never produces (empty else / then / loop / function blocks, functions with 0..3 parameters, poetic literals with word / suffix / dot elements in rock and assignment); for each program every failing position k = 0..n-1 of the leaf callbacks plus 'never'; a recording visitor that overrides only the eight leaf callbacks runs through ExprVisitorRunner, its Output is the free monoid (event list); expected = reference traversal of the tree in field order; checks: returned list = side-effect log = expected; failing at k returns Err(k) unchanged with log = expected[..=k]; non-trivial = programs with at least 2 leaf events; distinct = distinct (program, k)",
+    rule: "programs built directly as AST values (public fields): the whole canonical corpus of the reference grammar (every statement kind with every slot filled from 14 expression shapes, operator chains, lists, calls, subscripts), every block-nesting shape up to 5 (thorough 7) nodes, plus trees the parser never produces (empty else / then / loop / function blocks, functions with 0..3 parameters, poetic literals with word / suffix / dot elements in rock and assignment); for each program every failing position k = 0..n-1 of the leaf callbacks plus 'never'; a recording visitor that overrides only the eight leaf callbacks runs through ExprVisitorRunner, its Output is the free monoid (event list); expected = reference traversal of the tree in field order; checks: returned list = side-effect log = expected; failing at k returns Err(k) unchanged with log = expected[..=k]; second family: 15 probe visitors, each overriding the eight leaves plus exactly ONE interior callback of VisitExpr (assignment lhs/rhs, poetic rhs, poetic literal, push rhs, pop expression, expression list, expression, primary, binary, unary, subscript, call, identifier, variable name), for every program x every failing entry of that callback plus never: every typed node of that kind must be presented exactly once, in order relative to the leaves (typed reference walk over the public AST, cross-checked against the RAst walk); third family: an Output whose Default is the visible one-element list [Start]: between consecutive leaves the result must contain at least as many Starts as pure list folds (program blocks, block statements, expression list, poetic literal, parameters) begin there; non-trivial = programs with at least 2 leaf events / at least one entry of the probed kind; distinct = distinct (program, k)",
     assumptions: &["the reference traversal (children in field order) is written against the RAst mirror of the public AST", "mutation operator and rounding direction callbacks belong to VisitProgram, not to the expression visitor, and are not observable through the runner"],
     build,
     exhaustive: true,
@@ -28,6 +28,10 @@ pub enum Ev {
     Bin(String),
     Un(String),
     PElem(String),
+    /// an interior callback was entered (probe visitors only)
+    Enter(&'static str),
+    /// the Default of the marked output type (fold-origin visitor only)
+    Start,
 }
 
 #[derive(Clone, Debug, Default, PartialEq)]
@@ -62,31 +66,430 @@ impl Visit for Recorder {
     type Error = usize;
 }
 
+macro_rules! leaf_callbacks {
+    () => {
+        fn visit_poetic_number_literal_elem(&mut self, p: &a::PoeticNumberLiteralElem) -> visit::Result<Self> {
+            self.leaf(Ev::PElem(format!("{:?}", p)))
+        }
+        fn visit_binary_operator(&mut self, o: a::BinaryOperator) -> visit::Result<Self> {
+            self.leaf(Ev::Bin(format!("{:?}", o)))
+        }
+        fn visit_unary_operator(&mut self, o: a::UnaryOperator) -> visit::Result<Self> {
+            self.leaf(Ev::Un(format!("{:?}", o)))
+        }
+        fn visit_literal_expression(&mut self, e: &a::WithRange<a::LiteralExpression>) -> visit::Result<Self> {
+            self.leaf(Ev::Lit(format!("{:?}", e.0)))
+        }
+        fn visit_pronoun(&mut self, _: SourceRange) -> visit::Result<Self> {
+            self.leaf(Ev::Pronoun)
+        }
+        fn visit_simple_identifier(&mut self, n: a::WithRange<&a::SimpleIdentifier>) -> visit::Result<Self> {
+            self.leaf(Ev::Simple(n.0 .0.clone()))
+        }
+        fn visit_common_identifier(&mut self, n: a::WithRange<&a::CommonIdentifier>) -> visit::Result<Self> {
+            self.leaf(Ev::Common(n.0 .0.clone(), n.0 .1.clone()))
+        }
+        fn visit_proper_identifier(&mut self, n: a::WithRange<&a::ProperIdentifier>) -> visit::Result<Self> {
+            self.leaf(Ev::Proper(n.0 .0.clone()))
+        }
+    };
+}
+
 impl VisitExpr for Recorder {
-    fn visit_poetic_number_literal_elem(&mut self, p: &a::PoeticNumberLiteralElem) -> visit::Result<Self> {
-        self.leaf(Ev::PElem(format!("{:?}", p)))
+    leaf_callbacks!();
+}
+
+// ---------------------------------------------------------------- probe visitors: the eight leaves plus ONE interior callback
+// Each probe overrides exactly one interior callback of VisitExpr: it records that the node was
+// presented, then hands the node's children on in field order (written here from ast.rs, not copied
+// from visit.rs). All other interior callbacks keep the crate's defaults, so a probe observes both the
+// runner's statement-level entry points and the defaults' hand-over between expression nodes.
+macro_rules! probe {
+    ($name:ident, $kind:expr, fn $method:ident(&mut $slf:ident, $arg:ident : $ty:ty) $body:block) => {
+        pub struct $name(pub Recorder);
+        impl $name {
+            fn leaf(&mut self, e: Ev) -> Result<Events, usize> {
+                self.0.leaf(e)
+            }
+        }
+        impl Visit for $name {
+            type Output = Events;
+            type Error = usize;
+        }
+        impl VisitExpr for $name {
+            leaf_callbacks!();
+            fn $method(&mut $slf, $arg: $ty) -> visit::Result<Self> {
+                let head = $slf.leaf(Ev::Enter($kind))?;
+                let rest: Events = $body;
+                Ok(head.combine(rest))
+            }
+        }
+    };
+}
+
+probe!(PAssignmentLhs, "assignment_lhs", fn visit_assignment_lhs(&mut self, x: &a::AssignmentLHS) {
+    match x {
+        a::AssignmentLHS::Identifier(i) => self.visit_identifier(i)?,
+        a::AssignmentLHS::ArraySubscript(s) => self.visit_array_subscript(s)?,
     }
-    fn visit_binary_operator(&mut self, o: a::BinaryOperator) -> visit::Result<Self> {
-        self.leaf(Ev::Bin(format!("{:?}", o)))
+});
+probe!(PAssignmentRhs, "assignment_rhs", fn visit_assignment_rhs(&mut self, x: &a::AssignmentRHS) {
+    match x {
+        a::AssignmentRHS::ExpressionList(e) => self.visit_expression_list(e)?,
     }
-    fn visit_unary_operator(&mut self, o: a::UnaryOperator) -> visit::Result<Self> {
-        self.leaf(Ev::Un(format!("{:?}", o)))
+});
+probe!(PPoeticRhs, "poetic_number_assignment_rhs", fn visit_poetic_number_assignment_rhs(&mut self, x: &a::PoeticNumberAssignmentRHS) {
+    match x {
+        a::PoeticNumberAssignmentRHS::Expression(e) => self.visit_expression(e)?,
+        a::PoeticNumberAssignmentRHS::PoeticNumberLiteral(p) => self.visit_poetic_number_literal(p)?,
     }
-    fn visit_literal_expression(&mut self, e: &a::WithRange<a::LiteralExpression>) -> visit::Result<Self> {
-        self.leaf(Ev::Lit(format!("{:?}", e.0)))
+});
+probe!(PPoeticLiteral, "poetic_number_literal", fn visit_poetic_number_literal(&mut self, x: &a::PoeticNumberLiteral) {
+    let mut acc = Events::default();
+    for e in &x.elems {
+        acc = acc.combine(self.visit_poetic_number_literal_elem(e)?);
     }
-    fn visit_pronoun(&mut self, _: SourceRange) -> visit::Result<Self> {
-        self.leaf(Ev::Pronoun)
+    acc
+});
+probe!(PPushRhs, "array_push_rhs", fn visit_array_push_rhs(&mut self, x: &a::ArrayPushRHS) {
+    match x {
+        a::ArrayPushRHS::ExpressionList(e) => self.visit_expression_list(e)?,
+        a::ArrayPushRHS::PoeticNumberLiteral(p) => self.visit_poetic_number_literal(p)?,
     }
-    fn visit_simple_identifier(&mut self, n: a::WithRange<&a::SimpleIdentifier>) -> visit::Result<Self> {
-        self.leaf(Ev::Simple(n.0 .0.clone()))
+});
+probe!(PPopExpr, "array_pop_expr", fn visit_array_pop_expr(&mut self, x: &a::ArrayPopExpr) {
+    self.visit_primary_expression(&x.array)?
+});
+probe!(PExpressionList, "expression_list", fn visit_expression_list(&mut self, x: &a::ExpressionList) {
+    let mut acc = self.visit_expression(&x.first)?;
+    for e in &x.rest {
+        acc = acc.combine(self.visit_expression(e)?);
     }
-    fn visit_common_identifier(&mut self, n: a::WithRange<&a::CommonIdentifier>) -> visit::Result<Self> {
-        self.leaf(Ev::Common(n.0 .0.clone(), n.0 .1.clone()))
+    acc
+});
+probe!(PExpression, "expression", fn visit_expression(&mut self, x: &a::Expression) {
+    match x {
+        a::Expression::PrimaryExpression(e) => self.visit_primary_expression(e)?,
+        a::Expression::BinaryExpression(e) => self.visit_binary_expression(e)?,
+        a::Expression::UnaryExpression(e) => self.visit_unary_expression(e)?,
     }
-    fn visit_proper_identifier(&mut self, n: a::WithRange<&a::ProperIdentifier>) -> visit::Result<Self> {
-        self.leaf(Ev::Proper(n.0 .0.clone()))
+});
+probe!(PPrimary, "primary_expression", fn visit_primary_expression(&mut self, x: &a::PrimaryExpression) {
+    match x {
+        a::PrimaryExpression::Literal(e) => self.visit_literal_expression(e)?,
+        a::PrimaryExpression::Identifier(i) => self.visit_identifier(i)?,
+        a::PrimaryExpression::ArraySubscript(s) => self.visit_array_subscript(s)?,
+        a::PrimaryExpression::FunctionCall(f) => self.visit_function_call(f)?,
+        a::PrimaryExpression::ArrayPop(p) => self.visit_array_pop_expr(p)?,
     }
+});
+probe!(PBinary, "binary_expression", fn visit_binary_expression(&mut self, x: &a::BinaryExpression) {
+    let l = self.visit_expression(&x.lhs)?;
+    let o = self.visit_binary_operator(x.operator)?;
+    let r = self.visit_expression_list(&x.rhs)?;
+    l.combine(o).combine(r)
+});
+probe!(PUnary, "unary_expression", fn visit_unary_expression(&mut self, x: &a::UnaryExpression) {
+    let o = self.visit_unary_operator(x.operator)?;
+    let e = self.visit_expression(&x.operand)?;
+    o.combine(e)
+});
+probe!(PSubscript, "array_subscript", fn visit_array_subscript(&mut self, x: &a::ArraySubscript) {
+    let l = self.visit_primary_expression(&x.array)?;
+    let r = self.visit_primary_expression(&x.subscript)?;
+    l.combine(r)
+});
+probe!(PCall, "function_call", fn visit_function_call(&mut self, x: &a::FunctionCall) {
+    let mut acc = self.visit_variable_name(x.name.as_ref())?;
+    for e in &x.args {
+        acc = acc.combine(self.visit_expression(e)?);
+    }
+    acc
+});
+probe!(PIdentifier, "identifier", fn visit_identifier(&mut self, x: &a::WithRange<a::Identifier>) {
+    match &x.0 {
+        a::Identifier::VariableName(n) => self.visit_variable_name(a::WithRange(n, x.1.clone()))?,
+        a::Identifier::Pronoun => self.visit_pronoun(x.1.clone())?,
+    }
+});
+probe!(PVariableName, "variable_name", fn visit_variable_name(&mut self, x: a::WithRange<&a::VariableName>) {
+    match x.0 {
+        a::VariableName::Simple(n) => self.visit_simple_identifier(a::WithRange(n, x.1.clone()))?,
+        a::VariableName::Common(n) => self.visit_common_identifier(a::WithRange(n, x.1.clone()))?,
+        a::VariableName::Proper(n) => self.visit_proper_identifier(a::WithRange(n, x.1.clone()))?,
+    }
+});
+
+pub const PROBES: &[&str] = &[
+    "assignment_lhs",
+    "assignment_rhs",
+    "poetic_number_assignment_rhs",
+    "poetic_number_literal",
+    "array_push_rhs",
+    "array_pop_expr",
+    "expression_list",
+    "expression",
+    "primary_expression",
+    "binary_expression",
+    "unary_expression",
+    "array_subscript",
+    "function_call",
+    "identifier",
+    "variable_name",
+];
+
+/// run probe number `k` over a program: (result, log)
+fn run_probe(k: usize, ast: &a::Program, fail_at: Option<usize>) -> (Result<Events, usize>, Vec<Ev>) {
+    macro_rules! go {
+        ($t:ident) => {{
+            let mut runner = ExprVisitorRunner::with_inner($t(Recorder { log: Vec::new(), fail_at }));
+            let r = runner.visit_program(ast);
+            (r, runner.inner().0.log)
+        }};
+    }
+    match k {
+        0 => go!(PAssignmentLhs),
+        1 => go!(PAssignmentRhs),
+        2 => go!(PPoeticRhs),
+        3 => go!(PPoeticLiteral),
+        4 => go!(PPushRhs),
+        5 => go!(PPopExpr),
+        6 => go!(PExpressionList),
+        7 => go!(PExpression),
+        8 => go!(PPrimary),
+        9 => go!(PBinary),
+        10 => go!(PUnary),
+        11 => go!(PSubscript),
+        12 => go!(PCall),
+        13 => go!(PIdentifier),
+        _ => go!(PVariableName),
+    }
+}
+
+// ---------------------------------------------------------------- fold-origin visitor: an Output whose Default is visible
+/// event list whose Default is the one-element list [Start]: every fold that starts from the default
+/// leaves a Start in front of its first result
+#[derive(Clone, Debug, PartialEq)]
+pub struct Marked(pub Vec<Ev>);
+impl Default for Marked {
+    fn default() -> Self {
+        Marked(vec![Ev::Start])
+    }
+}
+impl Combine for Marked {
+    fn combine(mut self, other: Self) -> Self {
+        self.0.extend(other.0);
+        self
+    }
+}
+pub struct MarkedRecorder;
+impl MarkedRecorder {
+    fn leaf(&mut self, e: Ev) -> Result<Marked, usize> {
+        Ok(Marked(vec![e]))
+    }
+}
+impl Visit for MarkedRecorder {
+    type Output = Marked;
+    type Error = usize;
+}
+impl VisitExpr for MarkedRecorder {
+    leaf_callbacks!();
+}
+
+// ---------------------------------------------------------------- typed reference walk over the public AST
+/// every typed node in field order: Enter(kind) for interior nodes, the leaf events, and a Start where a
+/// pure list (program blocks, block statements, expression list, poetic literal elements, parameters)
+/// begins its fold
+pub struct RefWalk {
+    pub out: Vec<Ev>,
+}
+impl RefWalk {
+    fn program(&mut self, p: &a::Program) {
+        self.out.push(Ev::Start);
+        p.code.iter().for_each(|b| self.block(b));
+    }
+    fn block(&mut self, b: &a::Block) {
+        if let a::Block::NonEmpty(ss) = b {
+            self.out.push(Ev::Start);
+            ss.iter().for_each(|s| self.stmt(s));
+        }
+    }
+    fn stmt(&mut self, s: &a::Statement) {
+        use a::Statement as S;
+        match s {
+            S::Assignment(x) => {
+                self.lhs(&x.dest);
+                if let Some(o) = x.operator {
+                    self.out.push(Ev::Bin(format!("{:?}", o)));
+                }
+                self.out.push(Ev::Enter("assignment_rhs"));
+                match &x.value {
+                    a::AssignmentRHS::ExpressionList(e) => self.expression_list(e),
+                }
+            }
+            S::PoeticAssignment(a::PoeticAssignment::Number(x)) => {
+                self.lhs(&x.dest);
+                self.out.push(Ev::Enter("poetic_number_assignment_rhs"));
+                match &x.rhs {
+                    a::PoeticNumberAssignmentRHS::Expression(e) => self.expression(e),
+                    a::PoeticNumberAssignmentRHS::PoeticNumberLiteral(p) => self.poetic(p),
+                }
+            }
+            S::PoeticAssignment(a::PoeticAssignment::String(x)) => self.lhs(&x.dest),
+            S::If(x) => {
+                self.expression(&x.condition);
+                self.block(&x.then_block);
+                if let Some(b) = &x.else_block {
+                    self.block(b);
+                }
+            }
+            S::While(x) => {
+                self.expression(&x.condition);
+                self.block(&x.block);
+            }
+            S::Until(x) => {
+                self.expression(&x.condition);
+                self.block(&x.block);
+            }
+            S::Inc(x) => self.identifier(&x.dest),
+            S::Dec(x) => self.identifier(&x.dest),
+            S::Input(x) => {
+                if let Some(d) = x.dest.opt() {
+                    self.lhs(d);
+                }
+            }
+            S::Output(x) => self.expression(&x.value),
+            S::Return(x) => self.expression(&x.value),
+            S::Mutation(x) => {
+                self.primary(&x.operand);
+                if let Some(d) = &x.dest {
+                    self.lhs(d);
+                }
+                if let Some(p) = &x.param {
+                    self.expression(p);
+                }
+            }
+            S::Rounding(x) => self.expression(&x.operand),
+            S::Continue(_) | S::Break(_) => {}
+            S::ArrayPush(x) => {
+                self.primary(&x.array);
+                if let Some(v) = &x.value {
+                    self.out.push(Ev::Enter("array_push_rhs"));
+                    match v {
+                        a::ArrayPushRHS::ExpressionList(e) => self.expression_list(e),
+                        a::ArrayPushRHS::PoeticNumberLiteral(p) => self.poetic(p),
+                    }
+                }
+            }
+            S::ArrayPop(x) => {
+                self.pop_expr(&x.expr);
+                if let Some(d) = &x.dest {
+                    self.lhs(d);
+                }
+            }
+            S::Function(x) => {
+                self.variable_name(&x.name.0);
+                if !x.data.params.is_empty() {
+                    self.out.push(Ev::Start);
+                }
+                x.data.params.iter().for_each(|p| self.variable_name(&p.0));
+                self.block(&x.data.body);
+            }
+            S::FunctionCall(f) => self.call(f),
+        }
+    }
+    fn lhs(&mut self, l: &a::AssignmentLHS) {
+        self.out.push(Ev::Enter("assignment_lhs"));
+        match l {
+            a::AssignmentLHS::Identifier(i) => self.identifier(i),
+            a::AssignmentLHS::ArraySubscript(s) => self.subscript(s),
+        }
+    }
+    fn identifier(&mut self, i: &a::WithRange<a::Identifier>) {
+        self.out.push(Ev::Enter("identifier"));
+        match &i.0 {
+            a::Identifier::VariableName(n) => self.variable_name(n),
+            a::Identifier::Pronoun => self.out.push(Ev::Pronoun),
+        }
+    }
+    fn variable_name(&mut self, n: &a::VariableName) {
+        self.out.push(Ev::Enter("variable_name"));
+        self.out.push(match n {
+            a::VariableName::Simple(x) => Ev::Simple(x.0.clone()),
+            a::VariableName::Common(x) => Ev::Common(x.0.clone(), x.1.clone()),
+            a::VariableName::Proper(x) => Ev::Proper(x.0.clone()),
+        });
+    }
+    fn subscript(&mut self, s: &a::ArraySubscript) {
+        self.out.push(Ev::Enter("array_subscript"));
+        self.primary(&s.array);
+        self.primary(&s.subscript);
+    }
+    fn primary(&mut self, p: &a::PrimaryExpression) {
+        self.out.push(Ev::Enter("primary_expression"));
+        match p {
+            a::PrimaryExpression::Literal(l) => self.out.push(Ev::Lit(format!("{:?}", l.0))),
+            a::PrimaryExpression::Identifier(i) => self.identifier(i),
+            a::PrimaryExpression::ArraySubscript(s) => self.subscript(s),
+            a::PrimaryExpression::FunctionCall(f) => self.call(f),
+            a::PrimaryExpression::ArrayPop(p) => self.pop_expr(p),
+        }
+    }
+    fn call(&mut self, f: &a::FunctionCall) {
+        self.out.push(Ev::Enter("function_call"));
+        self.variable_name(&f.name.0);
+        f.args.iter().for_each(|e| self.expression(e));
+    }
+    fn pop_expr(&mut self, p: &a::ArrayPopExpr) {
+        self.out.push(Ev::Enter("array_pop_expr"));
+        self.primary(&p.array);
+    }
+    fn expression(&mut self, e: &a::Expression) {
+        self.out.push(Ev::Enter("expression"));
+        match e {
+            a::Expression::PrimaryExpression(p) => self.primary(p),
+            a::Expression::BinaryExpression(b) => {
+                self.out.push(Ev::Enter("binary_expression"));
+                self.expression(&b.lhs);
+                self.out.push(Ev::Bin(format!("{:?}", b.operator)));
+                self.expression_list(&b.rhs);
+            }
+            a::Expression::UnaryExpression(u) => {
+                self.out.push(Ev::Enter("unary_expression"));
+                self.out.push(Ev::Un(format!("{:?}", u.operator)));
+                self.expression(&u.operand);
+            }
+        }
+    }
+    fn expression_list(&mut self, l: &a::ExpressionList) {
+        self.out.push(Ev::Enter("expression_list"));
+        self.out.push(Ev::Start);
+        self.expression(&l.first);
+        l.rest.iter().for_each(|e| self.expression(e));
+    }
+    fn poetic(&mut self, p: &a::PoeticNumberLiteral) {
+        self.out.push(Ev::Enter("poetic_number_literal"));
+        self.out.push(Ev::Start);
+        p.elems.iter().for_each(|e| self.out.push(Ev::PElem(format!("{:?}", e))));
+    }
+}
+
+pub fn typed_reference(p: &a::Program) -> Vec<Ev> {
+    let mut w = RefWalk { out: Vec::new() };
+    w.program(p);
+    w.out
+}
+
+/// what probe `kind` must see: the leaves and the entries of its own kind
+pub fn probe_expected(full: &[Ev], kind: &str) -> Vec<Ev> {
+    full.iter()
+        .filter(|e| match e {
+            Ev::Start => false,
+            Ev::Enter(k) => *k == kind,
+            _ => true,
+        })
+        .cloned()
+        .collect()
 }
 
 // ---------------------------------------------------------------- reference traversal (field order)
@@ -285,6 +688,8 @@ fn exotic() -> Vec<Vec<Stmt>> {
 pub struct C16 {
     progs: Rc<Vec<Vec<Stmt>>>,
     prefix: Rc<Vec<u64>>,
+    /// prefix sums over (program, probe): 1 + number of entries of that probe's kind
+    probe_prefix: Rc<Vec<u64>>,
 }
 
 fn build(tier: Tier) -> Box<dyn Check> {
@@ -303,10 +708,16 @@ fn build(tier: Tier) -> Box<dyn Check> {
     }
     progs.extend(exotic());
     let mut prefix = vec![0u64];
+    let mut probe_prefix = vec![0u64];
     for p in &progs {
         prefix.push(prefix.last().unwrap() + reference_traversal(p).len() as u64 + 1);
+        let full = typed_reference(&to_ast::program(p));
+        for kind in PROBES {
+            let n = full.iter().filter(|e| **e == Ev::Enter(kind)).count() as u64;
+            probe_prefix.push(probe_prefix.last().unwrap() + n + 1);
+        }
     }
-    Box::new(C16 { progs: Rc::new(progs), prefix: Rc::new(prefix) })
+    Box::new(C16 { progs: Rc::new(progs), prefix: Rc::new(prefix), probe_prefix: Rc::new(probe_prefix) })
 }
 
 fn locate(prefix: &[u64], idx: u64) -> (usize, u64) {
@@ -322,16 +733,8 @@ fn locate(prefix: &[u64], idx: u64) -> (usize, u64) {
     (p, idx - prefix[p])
 }
 
-impl Check for C16 {
-    fn families(&self) -> Vec<(String, u64)> {
-        vec![("program x failing position".into(), *self.prefix.last().unwrap())]
-    }
-    fn describe(&self, _fam: usize, idx: u64) -> Value {
-        let (p, k) = locate(&self.prefix, idx);
-        let n = reference_traversal(&self.progs[p]).len() as u64;
-        json!({"text": format!("{:?} fail_at={}", self.progs[p], if k == n { "never".to_string() } else { k.to_string() }), "leaf_events": n})
-    }
-    fn run_case(&self, _fam: usize, idx: u64, ctx: &mut Ctx) {
+impl C16 {
+    fn leaf_case(&self, idx: u64, ctx: &mut Ctx) {
         let (p, k) = locate(&self.prefix, idx);
         let prog = &self.progs[p];
         let expected = reference_traversal(prog);
@@ -346,37 +749,154 @@ impl Check for C16 {
         let rec = runner.inner();
         ctx.observe_str(&format!("{:?}|{}", result.as_ref().map(|e| e.0.len()), rec.log.len()));
         ctx.add("leaf_callbacks", rec.log.len() as u64);
-        match fail_at {
-            None => {
-                if rec.log != expected {
-                    let d = first_diff(&rec.log, &expected);
-                    ctx.violation("wrong-traversal", format!("visited leaves differ from the tree in field order at event {}: visited {:?} expected {:?} — program {:?}", d, rec.log.get(d), expected.get(d), prog));
-                }
-                match result {
-                    Ok(ev) => {
-                        if ev.0 != rec.log {
-                            let d = first_diff(&ev.0, &rec.log);
-                            ctx.violation("wrong-fold", format!("the folded result differs from the visiting order at position {} (result {:?}, visited {:?}) — program {:?}", d, ev.0.get(d), rec.log.get(d), prog));
-                        }
+        compare(ctx, prog, "leaf visitor", &expected, fail_at, result, &rec.log);
+    }
+
+    fn probe_case(&self, idx: u64, ctx: &mut Ctx) {
+        let (pk, j) = locate(&self.probe_prefix, idx);
+        let (p, k) = (pk / PROBES.len(), pk % PROBES.len());
+        let prog = &self.progs[p];
+        let ast = to_ast::program(prog);
+        let full = typed_reference(&ast);
+        // the typed walk over the AST and the walk over its RAst mirror are two hand-written references: they must agree on the leaves
+        let leaves: Vec<Ev> = full.iter().filter(|e| !matches!(e, Ev::Enter(_) | Ev::Start)).cloned().collect();
+        if leaves != reference_traversal(prog) {
+            panic!("machinery: the two reference traversals disagree on {:?}", prog);
+        }
+        let expected = probe_expected(&full, PROBES[k]);
+        let entries: Vec<usize> = expected.iter().enumerate().filter(|(_, e)| matches!(e, Ev::Enter(_))).map(|(i, _)| i).collect();
+        let fail_at = entries.get(j as usize).copied();
+        if !entries.is_empty() {
+            ctx.nontrivial();
+            ctx.count(&format!("probe.{}", PROBES[k]));
+        }
+        let (result, log) = run_probe(k, &ast, fail_at);
+        ctx.observe_str(&format!("{}|{:?}|{}", k, result.as_ref().map(|e| e.0.len()), log.len()));
+        ctx.add("interior_callbacks", log.iter().filter(|e| matches!(e, Ev::Enter(_))).count() as u64);
+        compare(ctx, prog, &format!("visitor overriding visit_{}", PROBES[k]), &expected, fail_at, result, &log);
+    }
+
+    fn fold_case(&self, idx: u64, ctx: &mut Ctx) {
+        let prog = &self.progs[idx as usize];
+        let ast = to_ast::program(prog);
+        let full = typed_reference(&ast);
+        let mut runner = ExprVisitorRunner::with_inner(MarkedRecorder);
+        let result = match runner.visit_program(&ast) {
+            Ok(m) => m.0,
+            Err(e) => {
+                ctx.violation("wrong-fold", format!("walk without failing callback returned Err({}) — program {:?}", e, prog));
+                return;
+            }
+        };
+        ctx.nontrivial();
+        ctx.observe_str(&format!("{}", result.len()));
+        // split both streams at the leaves: gap g = events before the g-th leaf (last gap: after the last leaf)
+        let gaps = |evs: &[Ev]| -> (Vec<Ev>, Vec<usize>) {
+            let mut leaves = Vec::new();
+            let mut starts = vec![0usize];
+            for e in evs {
+                match e {
+                    Ev::Start => *starts.last_mut().unwrap() += 1,
+                    Ev::Enter(_) => {}
+                    l => {
+                        leaves.push(l.clone());
+                        starts.push(0);
                     }
-                    Err(e) => ctx.violation("wrong-fold", format!("walk without failing callback returned Err({})", e)),
                 }
             }
-            Some(k) => {
-                if result != Err(k) {
-                    ctx.violation("error-not-propagated", format!("callback {} failed but the walk returned {:?} — program {:?}", k, result.map(|e| e.0.len()), prog));
-                }
-                if rec.log[..] != expected[..=k] {
-                    ctx.violation(
-                        "walk-continued-after-error",
-                        format!("callback {} failed; the visitor was called {} times, expected exactly {} (the prefix of the traversal) — program {:?}", k, rec.log.len(), k + 1, prog),
-                    );
-                }
+            (leaves, starts)
+        };
+        let (want_leaves, want_starts) = gaps(&full);
+        let (got_leaves, got_starts) = gaps(&result);
+        if got_leaves != want_leaves {
+            let d = first_diff(&got_leaves, &want_leaves);
+            ctx.violation("wrong-fold", format!("with an output type whose default is visible, the folded leaves differ from the tree in field order at {}: got {:?} expected {:?} — program {:?}", d, got_leaves.get(d), want_leaves.get(d), prog));
+            return;
+        }
+        ctx.add("list_folds", want_starts.iter().sum::<usize>() as u64);
+        for (g, (got, want)) in got_starts.iter().zip(&want_starts).enumerate() {
+            if got < want {
+                ctx.violation(
+                    "fold-not-from-default",
+                    format!(
+                        "{} list fold(s) (program blocks / block statements / expression list / poetic literal / parameters) begin before leaf {} ({:?}) but only {} default value(s) were folded in there: a fold did not start from the default — program {:?}, result {:?}",
+                        want,
+                        g,
+                        want_leaves.get(g),
+                        got,
+                        prog,
+                        result
+                    ),
+                );
+                return;
             }
         }
     }
+}
+
+fn compare(ctx: &mut Ctx, prog: &[Stmt], who: &str, expected: &[Ev], fail_at: Option<usize>, result: Result<Events, usize>, log: &[Ev]) {
+    match fail_at {
+        None => {
+            if log != expected {
+                let d = first_diff(log, expected);
+                ctx.violation("wrong-traversal", format!("{}: callbacks differ from the tree in field order at event {}: visited {:?} expected {:?} — program {:?}", who, d, log.get(d), expected.get(d), prog));
+            }
+            match result {
+                Ok(ev) => {
+                    if ev.0 != log {
+                        let d = first_diff(&ev.0, log);
+                        ctx.violation("wrong-fold", format!("{}: the folded result differs from the visiting order at position {} (result {:?}, visited {:?}) — program {:?}", who, d, ev.0.get(d), log.get(d), prog));
+                    }
+                }
+                Err(e) => ctx.violation("wrong-fold", format!("{}: walk without failing callback returned Err({})", who, e)),
+            }
+        }
+        Some(k) => {
+            if result != Err(k) {
+                ctx.violation("error-not-propagated", format!("{}: callback {} failed but the walk returned {:?} — program {:?}", who, k, result.map(|e| e.0.len()), prog));
+            }
+            if log.len() <= k || log[..] != expected[..=k] {
+                ctx.violation(
+                    "walk-continued-after-error",
+                    format!("{}: callback {} failed; the visitor was called {} times, expected exactly {} (the prefix of the traversal) — program {:?}", who, k, log.len(), k + 1, prog),
+                );
+            }
+        }
+    }
+}
+
+impl Check for C16 {
+    fn families(&self) -> Vec<(String, u64)> {
+        vec![
+            ("program x failing leaf position".into(), *self.prefix.last().unwrap()),
+            ("program x interior callback x failing entry".into(), *self.probe_prefix.last().unwrap()),
+            ("program folded into an output with a visible default".into(), self.progs.len() as u64),
+        ]
+    }
+    fn describe(&self, fam: usize, idx: u64) -> Value {
+        match fam {
+            0 => {
+                let (p, k) = locate(&self.prefix, idx);
+                let n = reference_traversal(&self.progs[p]).len() as u64;
+                json!({"text": format!("{:?} fail_at={}", self.progs[p], if k == n { "never".to_string() } else { k.to_string() }), "leaf_events": n})
+            }
+            1 => {
+                let (pk, j) = locate(&self.probe_prefix, idx);
+                let (p, k) = (pk / PROBES.len(), pk % PROBES.len());
+                json!({"text": format!("{:?} override=visit_{} failing_entry={}", self.progs[p], PROBES[k], j)})
+            }
+            _ => json!({"text": format!("{:?} output=marked", self.progs[idx as usize])}),
+        }
+    }
+    fn run_case(&self, fam: usize, idx: u64, ctx: &mut Ctx) {
+        match fam {
+            0 => self.leaf_case(idx, ctx),
+            1 => self.probe_case(idx, ctx),
+            _ => self.fold_case(idx, ctx),
+        }
+    }
     fn static_coverage(&self) -> Value {
-        json!({"programs": self.progs.len()})
+        json!({"programs": self.progs.len(), "interior_callbacks_probed": PROBES})
     }
 }
 
